@@ -146,6 +146,8 @@ impl<'t, 'a> SynGen<'t, 'a> {
         link_weight: u32,
     ) -> Expr {
         let n_links = if c.depth == 0 { 0 } else { self.t.weighted(&[100 - link_weight.min(90), link_weight, link_weight / 4]) };
+        // now and then a long chain (17-40 links): beyond inline stacks and recursion shortcuts of 16
+        let n_links = if n_links == 2 && self.t.chance(1, 12) { 17 + self.t.pick(24) } else { n_links };
         let chosen: Vec<BinOp> = (0..n_links).map(|_| *self.t.choose(ops)).collect();
         // first operand: carries `lead`; followed by an operator, so a trailing call matters only for `and`
         let first_ctx = Ctx {
